@@ -1,3 +1,4 @@
 //! Shared helpers of the correspondence harness.
 pub mod util;
 pub mod sys;
+pub mod caobs;
